@@ -4,9 +4,10 @@
  *
  * Roots owned by the harness: key slots K0,K1 and ephemeron slots E0,E1 in one preserved vector.  Operations:
  *   newkey(i)                         K[i] := fresh pair
- *   neweph(e, k, v)                   E[e] := (make-ephemeron K[k] value) with value kind v in
+ *   neweph(e, k, v)                   E[e] := (make-ephemeron K[k] value) (k = 2, 3: the key is an immediate -- the fixnum 42 / the empty
+ *                                       list -- which can never become unreachable, so the value lives as long as the ephemeron) with value kind v in
  *                                       0 fresh pair   1 K[1-k]   2 the ephemeron object of E[1-e]   3 (list K[k]) (value references its own key)
- *                                       4 the other key K[1-k] only when that key has no root (held only through this value) -- see below
+ *                                       4 (list K[1-k]): once K[1-k] loses its root it is reachable only through this value
  *   dropkey(i) dropeph(e)             clear the root
  *   gc                                full collection
  * The reference model (reachability with ephemeron semantics, computed on the harness's own shadow graph) says which
@@ -27,7 +28,7 @@ static int nops = 0;
 /* shadow graph: objects are numbered; an object is a key, a value pair, or an ephemeron */
 #define MAXOBJ 64
 typedef struct {
-  int kind;            /* 1 key pair, 2 plain value pair, 3 ephemeron, 4 pair holding a key */
+  int kind;            /* 1 key pair, 2 plain value pair, 3 ephemeron, 4 pair holding a key, 5 immediate key */
   sexp ptr;            /* address (never dereferenced unless the model says it is live) */
   int key, val;        /* for ephemerons: object numbers (val may be -1) */
   int ref;             /* for kind 4: the key it holds */
@@ -40,10 +41,14 @@ static int rootK[2], rootE[2];   /* object numbers or -1 */
 static sexp roots;
 static long violations = 0;
 
+static int with_immediates = 0;   /* 1: the alphabet also has ephemerons whose key is an immediate */
 static void build_alphabet(void) {
   int i, e, k, v;
   for (i = 0; i < 2; i++) { alphabet[nops].kind = O_NEWKEY; alphabet[nops].a = i; nops++; }
-  for (e = 0; e < 2; e++) for (k = 0; k < 2; k++) for (v = 0; v < 4; v++) {
+  for (e = 0; e < 2; e++) for (k = 0; k < 2; k++) for (v = 0; v < 5; v++) {
+    alphabet[nops].kind = O_NEWEPH; alphabet[nops].a = e; alphabet[nops].b = k; alphabet[nops].c = v; nops++;
+  }
+  if (with_immediates) for (e = 0; e < 2; e++) for (k = 2; k < 4; k++) for (v = 0; v < 3; v++) {   /* immediate keys */
     alphabet[nops].kind = O_NEWEPH; alphabet[nops].a = e; alphabet[nops].b = k; alphabet[nops].c = v; nops++;
   }
   for (i = 0; i < 2; i++) { alphabet[nops].kind = O_DROPKEY; alphabet[nops].a = i; nops++; }
@@ -58,7 +63,7 @@ static void print_hist(const unsigned char *h, int n) {
     switch (o.kind) {
     case O_NEWKEY: printf("%snewkey(%d)", i ? " " : "", o.a); break;
     case O_NEWEPH: printf("%sneweph(E%d,key=K%d,value=%s)", i ? " " : "", o.a, o.b,
-                          o.c == 0 ? "fresh" : o.c == 1 ? "otherkey" : o.c == 2 ? "othereph" : "list-of-own-key"); break;
+                          o.c == 0 ? "fresh" : o.c == 1 ? "otherkey" : o.c == 2 ? "othereph" : o.c == 4 ? "list-of-other-key" : "list-of-own-key"); break;
     case O_DROPKEY: printf("%sdropkey(%d)", i ? " " : "", o.a); break;
     case O_DROPEPH: printf("%sdropeph(%d)", i ? " " : "", o.a); break;
     case O_GC: printf("%sgc", i ? " " : ""); break;
@@ -86,6 +91,7 @@ static void model_live(int *live) {
     for (i = 0; i < nobjs; i++) {
       if (!live[i]) continue;
       if (objs[i].kind == 4 && objs[i].ref >= 0 && !live[objs[i].ref]) { live[objs[i].ref] = 1; changed = 1; }
+      if (objs[i].kind == 3 && objs[i].key >= 0 && objs[objs[i].key].kind == 5 && !live[objs[i].key]) { live[objs[i].key] = 1; changed = 1; }
       if (objs[i].kind == 3 && !objs[i].broken && objs[i].key >= 0 && live[objs[i].key]
           && objs[i].val >= 0 && !live[objs[i].val]) { live[objs[i].val] = 1; changed = 1; }
     }
@@ -102,6 +108,29 @@ static int apply_op(sexp ctx, op_t o) {    /* returns 0 if the operation is not 
     rootK[o.a] = n; setroot(o.a, n);
     return 1;
   case O_NEWEPH:
+    if (o.b >= 2) {          /* immediate key */
+      int kn;
+      sexp imm = (o.b == 2) ? sexp_make_fixnum(42) : SEXP_NULL;
+      vn = -1;
+      if (o.c == 0) {
+        v = sexp_cons(ctx, SEXP_ZERO, SEXP_NULL);
+        vn = newobj(2, v); sexp_car(v) = sexp_make_fixnum(objs[vn].tag);
+        sexp_vector_set(roots, sexp_make_fixnum(4), v);
+      } else if (o.c == 1) {
+        if (rootK[0] < 0) return 0;
+        vn = rootK[0]; v = objs[vn].ptr;
+      } else {
+        other = rootE[1 - o.a];
+        if (other < 0) return 0;
+        vn = other; v = objs[vn].ptr;
+      }
+      p = sexp_make_ephemeron(ctx, imm, v);
+      sexp_vector_set(roots, sexp_make_fixnum(4), SEXP_FALSE);
+      kn = newobj(5, imm);
+      n = newobj(3, p); objs[n].key = kn; objs[n].val = vn;
+      rootE[o.a] = n; setroot(2 + o.a, n);
+      return 1;
+    }
     if (rootK[o.b] < 0) return 0;
     vn = -1;
     if (o.c == 0) {
@@ -115,6 +144,11 @@ static int apply_op(sexp ctx, op_t o) {    /* returns 0 if the operation is not 
       other = rootE[1 - o.a];
       if (other < 0) return 0;
       vn = other; v = objs[vn].ptr;
+    } else if (o.c == 4) {     /* a list holding the OTHER key: that key may later be reachable only through this value */
+      if (rootK[1 - o.b] < 0) return 0;
+      v = sexp_cons(ctx, objs[rootK[1 - o.b]].ptr, SEXP_NULL);
+      vn = newobj(4, v); objs[vn].ref = rootK[1 - o.b];
+      sexp_vector_set(roots, sexp_make_fixnum(4), v);
     } else {
       v = sexp_cons(ctx, objs[rootK[o.b]].ptr, SEXP_NULL);
       vn = newobj(4, v); objs[vn].ref = rootK[o.b];
@@ -170,7 +204,7 @@ static void check_state(sexp ctx, int after_gc) {
         if (sexp_brokenp(e) || k != objs[objs[i].key].ptr) {
           snprintf(vmsg, sizeof(vmsg), "ephemeron #%d reported broken (or key changed) although its key is strongly reachable", i); violation(vmsg); continue;
         }
-        if (!sexp_pairp(k) || sexp_car(k) != sexp_make_fixnum(objs[objs[i].key].tag)) {
+        if (objs[objs[i].key].kind != 5 && (!sexp_pairp(k) || sexp_car(k) != sexp_make_fixnum(objs[objs[i].key].tag))) {
           snprintf(vmsg, sizeof(vmsg), "key of ephemeron #%d is corrupted", i); violation(vmsg); continue;
         }
         if (objs[i].val >= 0) {
@@ -219,6 +253,7 @@ static size_t make_key(void) {
                     objs[i].broken ? "B" : ((objs[i].key >= 0 && !live[objs[i].key]) ? "D" : ""),
                     (objs[i].val >= 0 && live[objs[i].val]) ? id[objs[i].val] : -1, "");
     if (objs[i].kind == 4) n += snprintf(keybuf + n, sizeof(keybuf) - n, "r%d", objs[i].ref >= 0 ? id[objs[i].ref] : -1);
+    if (objs[i].kind == 5) n += snprintf(keybuf + n, sizeof(keybuf) - n, "i%d", objs[i].ptr == SEXP_NULL ? 1 : 0);
     n += snprintf(keybuf + n, sizeof(keybuf) - n, ";");
   }
   return n;
@@ -277,6 +312,7 @@ int main(int argc, char **argv) {
   sexp ctx;
   if (depth > MAXD) depth = MAXD;
   if (argc > 2) multi_segment = atoi(argv[2]);
+  if (argc > 3) with_immediates = atoi(argv[3]);
   vh_poison = VH_ASAN; vh_heapcheck = 1;
   vh_install_gc_hooks();
   build_alphabet();
